@@ -9,4 +9,6 @@ for d in sorted(glob.glob(os.path.join(here, "seeded", "*"))):
     def cut(s, n): 
         s = " ".join(str(s).split()); return s if len(s) <= n else s[:n-3] + "..."
     print("| %s | %s | %s | %s | %s |" % (os.path.basename(d), cut(m.get("summary",""), 230), cut(m.get("needs",""), 200),
-          m.get("first_result_of_matching_check","?"), m.get("strengthening_prompted","") or "-"))
+          m.get("first_result_of_matching_check","?"),
+          (m.get("strengthening_prompted","") or "-") + ("" if str(m.get("final_result","")).startswith("caught by %s (quick" % m.get("property"))
+                                                           else "  **Final: " + cut(m.get("final_result",""), 400) + "**")))
